@@ -557,3 +557,102 @@ def check_forwarder(ctx, inst, fn, callee, mapping, what):
             ok = e.k == "arg" and e.extra[0] == p
             ctx.check(ok, inst, "PROVENANCE", b.path, "%s: parameter %d (%s) is what reaches %s" % (what, p - 1, b.local_name(p), callee.rsplit("::", 1)[-1]),
                       b.where(s_), {"arg": e.show()[:80]})
+
+
+def check_handoff(ctx, inst):
+    """(added after C05-i / C19-e) every accepted mutation of a persistent store is handed to the write buffer, and a replacement
+    is handed over *together with the generation it replaced* (add_replacement), whatever the state of the records involved.
+    Whether the old generation owns an extent is decided by the flusher at retirement time, under its own ordering; a test of
+    `record.sector` (or any other field of the record) at enqueue time races with a write of that record that is already in
+    flight: the generation then reaches the device with no Delete entry anywhere, is never retired (leaked extent, a stale
+    generation on the device) or - for a delete - never becomes durable.
+    Shape: from each publication / removal site, take the switches that *decide* whether a normal exit is reached without the
+    hand-off call (some edge can skip it, some edge cannot). Each of them tests store configuration only (memory_only, the
+    write_buffer option, values derived from them); a path that skips the hand-off with no such decider at all is reported too."""
+    from rules import storevocab as S
+    sites = []
+    for (b, n, kind) in S.pub_sites(ctx, inst, kinds=("new", "repl", "rem")):
+        if path_matches_any(b.path, ("FeoxStore::remove_expired_recovery_winners",)):
+            continue        # recovery retires expired winners itself (journalled), there is no write buffer yet
+        sites.append((b, n, kind))
+    ub = ctx.fn(S.UPDATE_TTL, inst)
+    if ub is not None:
+        for n in ctx.sites(ub, R.call("HashMap::update").filter(lambda bb, nn: R.recv_expr(bb, nn).has_field("FeoxStore", "hash_table"), "hash_table.update"), inst, exact=1):
+            sites.append((ub, n, "ttl"))
+    ctx.check(len(sites) >= 12, inst, "anchor", "-", "publication / removal sites with a hand-off (>= 12, found %d)" % len(sites), None)
+    for (b, m, kind) in sites:
+        want = ("WriteBuffer::add_replacement",) if kind in ("repl", "ttl") else ("WriteBuffer::add_write", "WriteBuffer::add_replacement")
+        H = {n.id for n in b.calls() if any(R.call_matches(n.ev, w) for w in want)}
+        ctx.check(bool(H), inst, "anchor", b.path, "the %s site is followed by a hand-off call (%s)" % (kind, " / ".join(w.rsplit("::", 1)[-1] for w in want)), b.where(m))
+        if not H:
+            continue
+        errs = set(A.error_nodes(b))
+        blocked = H | errs
+        rets = set(b.return_nodes())
+
+        def is_cfg(root):
+            cfg = root.has_field("FeoxStore", "memory_only") or root.has_field("FeoxStore", "write_buffer") or root.has_call("FeoxStore::get_write_buffer")
+            rec = any(x.k == "field" and isinstance(x.extra, tuple) and str(x.extra[0] or "").endswith("Record") for x in root.walk())
+            # a closure inside the test (`.filter(|_| !self.memory_only)`) may capture the store only
+            for x in root.walk():
+                if x.k == "agg" and "{closure" in str(x.extra):
+                    for cap in x.a:
+                        if not all(y.k in ("arg", "field", "ref", "deref", "proj") and (y.k != "arg" or y.extra[0] == 1) for y in cap.walk()):
+                            rec = True
+            return cfg and not rec
+
+        def deciders_of(r, bedges):
+            """switches that can take the hand-off away: one edge can still reach it, another can only reach a normal exit without it"""
+            out = []
+            for s_ in A.switches(b):
+                if s_ not in r:
+                    continue
+                info = A.switch_info(b, s_)
+                hand, pure_skip = [], []
+                for lab in {l for (_, l) in b.nodes[s_].succ}:
+                    if (s_, lab) in bedges:
+                        continue
+                    tg = edge_targets(b, s_, lab)
+                    # the hand-off of *this* mutation: a way that passes the mutation site again (next loop iteration) is a new one
+                    r2, _ = A.reach(b, tg, blocked_nodes=errs | {m}, blocked_edges=frozenset(bedges))
+                    can_hand = any(h in r2 or h in tg for h in H)
+                    r3, _ = A.reach(b, tg, blocked_nodes=blocked, blocked_edges=frozenset(bedges))
+                    can_skip = any(x in r3 or x in tg for x in rets)
+                    if can_hand:
+                        hand.append(lab)
+                    elif can_skip:
+                        pure_skip.append(lab)
+                if hand and pure_skip:
+                    out.append((s_, info, pure_skip))
+            return out
+
+        bedges = set()
+        r, ps = A.reach(b, A.succs(b, m), blocked_nodes=blocked)
+        rounds = 0
+        bad = []
+        while any(x in r for x in rets) and rounds < 8:
+            rounds += 1
+            ds = deciders_of(r, bedges)
+            cfgs = [(s_, info, sk) for (s_, info, sk) in ds if is_cfg(info.root)]
+            if not cfgs:
+                bad = ds
+                break
+            for (s_, info, sk) in cfgs:     # a configuration test may skip the hand-off (memory-only store, no write buffer)
+                bedges |= {(s_, l) for l in sk}
+            r, ps = A.reach(b, A.succs(b, m), blocked_nodes=blocked, blocked_edges=frozenset(bedges))
+        still = [x for x in rets if x in r]
+        if not still:
+            ctx.ok(inst, "FOLLOW", b.path, "every way from the %s site to a normal exit passes the hand-off, except where store configuration says there is no device" % kind, b.where(m))
+            continue
+        what = ("whether an accepted %s is handed to the write buffer%s depends on store configuration only, never on the state of a record"
+                % ({"new": "insert", "repl": "replacement", "ttl": "TTL change", "rem": "removal"}[kind], " with the generation it replaced" if kind in ("repl", "ttl") else ""))
+        if not bad:
+            ctx.fail(inst, "FOLLOW", b.path, what + " (a normal exit is reachable without the hand-off and no test decides it)", b.where(m),
+                     {"witness": R.witness(b, ps, r.get(still[0]))})
+        for (s_, info, sk) in bad:
+            ctx.fail(inst, "GUARD", b.path, what, b.where(s_), {"tested": info.root.show()[:160], "witness": R.witness(b, ps, r.get(still[0]))})
+
+
+def path_matches_any(path, names):
+    from feoxlint.model import path_matches
+    return any(path_matches(path, n) for n in names)
